@@ -216,8 +216,6 @@ def _fmmu_windows(ec):
     return {"fmmu_window_first": int(a[0]), "fmmu_window_inc": int(a[1] - a[0]), "fmmu_lock_inc": int(b[1] - b[0])}
 
 
-if __name__ == "__main__":
-    print(regenerate())
 
 
 def _serial_literals():
@@ -419,3 +417,7 @@ def _arraymap_literals():
         raise ValueError("unexpected ArrayMap.collect rounding")
     return {"arraymap_fmtsizes": sizes, "arraymap_fmtsize_x": int(eb.fmtsize("x")),
             "arraymap_FIXED_BASE": int(eb.Expression.FIXED_BASE), "arraymap_align": a}
+
+
+if __name__ == "__main__":      # keep this block LAST: helpers appended above must be defined first
+    print(regenerate())
